@@ -835,6 +835,23 @@ def keyed_values(fn, key):
     return out
 
 
+def atomic_facts(conds):
+    """[(test expression, truth)] -> {(text, truth)}: `A and B` taken true gives A, B; `A or B` taken false gives not A, not B;
+    negations folded"""
+    out = set()
+
+    def add(t, v):
+        t, v = _fold_not(t, v)
+        if isinstance(t, ast.BoolOp) and ((isinstance(t.op, ast.And) and v) or (isinstance(t.op, ast.Or) and not v)):
+            for x in t.values:
+                add(x, v)
+            return
+        out.add((src(t), v))
+    for t, v in conds:
+        add(t, v)
+    return out
+
+
 def facts_at(node, fn, resolve_locals=False):
     """{(condition text, truth)} known to hold where `node` stands: the enclosing tests, with `A and B` taken true split into
     A and B, `A or B` taken false split into not A, not B, and negations folded (`x is not y` true == `x is y` false)"""
